@@ -194,6 +194,7 @@ type node struct {
 	ctx      context.Context
 	decision sdktrace.SamplingDecision
 	depth    int
+	sc       trace.SpanContext // as it was when the span was started
 }
 
 func main() {
@@ -441,7 +442,7 @@ func main() {
 				if d != sdktrace.Drop {
 					recording[sc.SpanID()] = true
 				}
-				n := &node{span: span, ctx: ctx, decision: d, depth: depth}
+				n := &node{span: span, ctx: ctx, decision: d, depth: depth, sc: sc}
 				nodes = append(nodes, n)
 				k.C.Count("spans", 1)
 				k.C.Count(fmt.Sprintf("decision_%d", d), 1)
@@ -464,6 +465,24 @@ func main() {
 			vf.Shuffle(r, nodes)
 			for _, n := range nodes {
 				n.span.End()
+			}
+			// late children: spans started from the context of a parent that has already ended, after other
+			// spans were started in between. They still belong to that parent's trace, and an ended span
+			// keeps the identity it had.
+			if first := len(nodes); first > 0 && r.Chance(1, 2) {
+				for i := 0; i < 3; i++ {
+					n := nodes[r.Intn(first)]
+					build(nil, context.Background(), trace.SpanContext{}, 7) // an unrelated root in between
+					if !n.span.SpanContext().Equal(n.sc) {
+						k.Violate("ended-span-context-changed", "", fmt.Sprintf("was {%s %s}, now {%s %s}", n.sc.TraceID(), n.sc.SpanID(), n.span.SpanContext().TraceID(), n.span.SpanContext().SpanID()), nil)
+						break
+					}
+					build(n, n.ctx, n.sc, 7)
+					k.C.Count("late_children_of_ended_parents", 1)
+				}
+				for _, n := range nodes[first:] {
+					n.span.End()
+				}
 			}
 			tp.ForceFlush(context.Background())
 			tp.Shutdown(context.Background())
